@@ -122,3 +122,13 @@ Theorem C04_state_json_language :
     exists w b w' t, WS w /\ GS (sstate_schema n) t b /\ WS w' /\ l = (w ++ b ++ w')%list /\ fstate_of_json t = Some s.
 Proof. exact fstate_of_body_iff. Qed.
 Print Assumptions C04_state_json_language.
+
+(* (and such texts exist for every release version and every queue the model can hold: the theorem above is not vacuous) *)
+From UV Require Import JsonTextExist JsonSjExist.
+Theorem C04_every_state_json_has_such_a_file :
+  forall r q,
+    utf8_valid (bytes_of r) = true -> Forall fevent_in_range q -> Forall fevent_utf8 q ->
+    exists P, sj_of_file P = JOk {| rel := r; evq := map event_of_fevent q |} /\
+              (exists x, skip_ws P = (123 :: x)%N) /\ (exists y, P = (y ++ [125%N])%list).
+Proof. exact sj_state_has_a_file. Qed.
+Print Assumptions C04_every_state_json_has_such_a_file.
